@@ -1,6 +1,7 @@
 package rules
 
 import (
+	"fmt"
 	"go/ast"
 	"go/types"
 	"strings"
@@ -15,15 +16,28 @@ import (
 // forcedRun: starting behind node def of fn's graph, with the boolean variable pv fixed to val, follow every way on that
 // is consistent with that value. stop(x) ends a way harmlessly; every return met must satisfy okReturn. Reports whether no
 // way escapes (reaches the exit, leaves through `leave`, or meets a return that is not okReturn).
-func forcedRun(g *core.Graph, fn *core.Func, def *core.GNode, pv types.Object, val bool, leave func(*core.GNode) bool, okReturn func(*ast.ReturnStmt, *atomEnv, map[string]bool) bool) bool {
+func forcedRun(g *core.Graph, fn *core.Func, def *core.GNode, pv types.Object, val bool, leave func(*core.GNode) bool, okReturn func(*ast.ReturnStmt, *atomEnv, map[string]bool) bool, fixed ...map[types.Object]bool) bool {
 	info := fn.Pkg.TypesInfo
+	vals := map[string]bool{"P": val}
+	fixedName := map[types.Object]string{}
+	for _, m := range fixed {
+		for o, b := range m {
+			nm := fmt.Sprintf("F%d", len(fixedName))
+			fixedName[o] = nm
+			vals[nm] = b
+		}
+	}
 	env := &atomEnv{fn: fn, named: func(x ast.Expr) (string, bool, bool) {
-		if id, isId := core.Unparen(x).(*ast.Ident); isId && info.Uses[id] == pv {
-			return "P", false, true
+		if id, isId := core.Unparen(x).(*ast.Ident); isId {
+			if info.Uses[id] == pv {
+				return "P", false, true
+			}
+			if nm, ok := fixedName[info.Uses[id]]; ok {
+				return nm, false, true
+			}
 		}
 		return "", false, false
 	}}
-	vals := map[string]bool{"P": val}
 	seen := map[*core.GNode]bool{}
 	queue := append([]*core.GNode{}, def.Succs...)
 	for len(queue) > 0 {
@@ -62,14 +76,42 @@ func forcedRun(g *core.Graph, fn *core.Func, def *core.GNode, pv types.Object, v
 //   - "any": answers true (first result) as soon as one element is present, and false after the loop;
 //   - "all": answers false as soon as one element is missing, and true after the loop.
 // Anything else gives "".
-func quantifierKind(p *core.Prog, h *core.Func) (kind string, listIdx int) {
+func quantifierKind(p *core.Prog, h *core.Func, fixedArgs map[int]bool) (kind string, listIdx int, ansIdx int) {
+	kind, listIdx, ansIdx = quantifierKind0(p, h, fixedArgs)
+	return
+}
+
+// ansIdx is the position of the helper's boolean answer among its results (the first result of type bool); boolean parameters
+// that the call site fixes to a constant (fixedArgs) take that value in the run. A third kind, "notall", answers true as soon
+// as one element is missing and false after the loop.
+func quantifierKind0(p *core.Prog, h *core.Func, fixedArgs map[int]bool) (string, int, int) {
 	if h == nil || h.Body == nil {
-		return "", -1
+		return "", -1, -1
 	}
+	ansIdx := -1
+	if h.Obj == nil {
+		return "", -1, -1
+	}
+	if sig, ok := h.Obj.Type().(*types.Signature); ok {
+		for i := 0; i < sig.Results().Len(); i++ {
+			if types.Identical(sig.Results().At(i).Type().Underlying(), types.Typ[types.Bool]) && ansIdx < 0 {
+				ansIdx = i
+			}
+		}
+	}
+	if ansIdx < 0 {
+		return "", -1, -1
+	}
+	fixed := map[types.Object]bool{}
+	for i, b := range fixedArgs {
+		if po := h.ParamObj(i); po != nil {
+			fixed[po] = b
+		}
+	}
+	listIdx := -1
 	info := h.Pkg.TypesInfo
 	g := p.Graph(h)
 	var loop *ast.RangeStmt
-	listIdx = -1
 	ast.Inspect(h.Body, func(m ast.Node) bool {
 		if _, isLit := m.(*ast.FuncLit); isLit {
 			return false
@@ -87,7 +129,7 @@ func quantifierKind(p *core.Prog, h *core.Func) (kind string, listIdx int) {
 		return true
 	})
 	if loop == nil || loop.Value == nil {
-		return "", -1
+		return "", -1, -1
 	}
 	kv := core.ObjOf(info, loop.Value)
 	var def *core.GNode
@@ -121,7 +163,7 @@ func quantifierKind(p *core.Prog, h *core.Func) (kind string, listIdx int) {
 		return true
 	})
 	if def == nil || pv == nil {
-		return "", -1
+		return "", -1, -1
 	}
 	head := g.LoopHead(loop)
 	leave := func(x *core.GNode) bool {
@@ -129,13 +171,13 @@ func quantifierKind(p *core.Prog, h *core.Func) (kind string, listIdx int) {
 	}
 	firstConst := func(want bool) func(*ast.ReturnStmt, *atomEnv, map[string]bool) bool {
 		return func(rt *ast.ReturnStmt, _ *atomEnv, _ map[string]bool) bool {
-			if len(rt.Results) < 1 {
+			if len(rt.Results) <= ansIdx {
 				return false
 			}
 			if rn := g.NodeOf(rt.Pos()); rn != nil && len(rt.Results) >= 2 && definitelyErrorReturn(g, h, rn) {
 				return true // the lookup failed: no answer is given, the caller sees the error
 			}
-			b, isC := boolConst(info, rt.Results[0])
+			b, isC := boolConst(info, rt.Results[ansIdx])
 			return isC && b == want
 		}
 	}
@@ -151,22 +193,24 @@ func quantifierKind(p *core.Prog, h *core.Func) (kind string, listIdx int) {
 				continue
 			}
 			n++
-			if len(rt.Results) < 1 {
+			if len(rt.Results) <= ansIdx {
 				return false
 			}
-			if b, isC := boolConst(info, rt.Results[0]); !isC || b != want {
+			if b, isC := boolConst(info, rt.Results[ansIdx]); !isC || b != want {
 				return false
 			}
 		}
 		return n > 0
 	}
 	switch {
-	case forcedRun(g, h, def, pv, true, leave, firstConst(true)) && after(false):
-		return "any", listIdx
-	case forcedRun(g, h, def, pv, false, leave, firstConst(false)) && after(true):
-		return "all", listIdx
+	case forcedRun(g, h, def, pv, true, leave, firstConst(true), fixed) && after(false):
+		return "any", listIdx, ansIdx
+	case forcedRun(g, h, def, pv, false, leave, firstConst(false), fixed) && after(true):
+		return "all", listIdx, ansIdx
+	case forcedRun(g, h, def, pv, false, leave, firstConst(true), fixed) && after(false):
+		return "notall", listIdx, ansIdx
 	}
-	return "", -1
+	return "", -1, -1
 }
 
 // quantifierCall: the statement assigns the answer of a quantifier helper that is handed the list lo; the helper's kind, the
@@ -185,11 +229,17 @@ func quantifierCall(p *core.Prog, fn *core.Func, g *core.Graph, as *ast.AssignSt
 		return "", nil, nil
 	}
 	h := p.ByObj[fo.Origin()]
-	k, li := quantifierKind(p, h)
-	if k == "" || li >= len(c.Args) || (lo != nil && core.ObjOf(info, c.Args[li]) != lo) {
+	fixedArgs := map[int]bool{}
+	for i, a := range c.Args {
+		if b, isC := boolConst(info, a); isC {
+			fixedArgs[i] = b
+		}
+	}
+	k, li, ai := quantifierKind(p, h, fixedArgs)
+	if k == "" || li >= len(c.Args) || ai >= len(as.Lhs) || (lo != nil && core.ObjOf(info, c.Args[li]) != lo) {
 		return "", nil, nil
 	}
-	return k, core.ObjOf(info, as.Lhs[0]), g.NodeOf(as.Pos())
+	return k, core.ObjOf(info, as.Lhs[ai]), g.NodeOf(as.Pos())
 }
 
 // rejectingReturn: the return hands back false - as a constant, or as an expression that is false under the valuation.
@@ -244,7 +294,7 @@ func passedEveryTest(p *core.Prog, fn *core.Func, e ast.Expr) bool {
 			}
 		}
 		if u, isU := cj.(*ast.UnaryExpr); isU && u.Op.String() == "!" {
-			if kindOf(u.X) == "any" {
+			if k := kindOf(u.X); k == "any" || k == "notall" {
 				continue
 			}
 			return false
